@@ -92,7 +92,7 @@ pub fn gen_unknown_value(rng: &mut Rng, depth: usize, budget: &mut usize) -> V {
         },
         8 => V::Tag(gen_uint_any_width(rng), Box::new(V::U(rng.below(100)))),
         9 | 10 => {
-            let n = (*rng.pick(&[0usize, 1, 2, 3, 5, 23, 24, 30])).min(*budget / 4 + 1);
+            let n = (*rng.pick(&[0usize, 1, 2, 3, 5, 23, 24, 30, 255, 256, 257])).min(*budget / 4 + 1);
             V::A((0..n).map(|_| gen_unknown_value(rng, depth - 1, budget)).collect())
         }
         11 => {
@@ -210,16 +210,18 @@ pub fn run(rep: &mut Rep) {
                         let mut extra = 1;
                         if let Some(V::M(e)) = at_mut(&mut m, &node.path) {
                             e.insert(pos, (key.clone(), val.clone()));
-                            // sometimes several unknown members
+                            // sometimes several unknown members, occasionally hundreds of them
                             if rng.chance(1, 4) {
-                                for _ in 0..rng.range(1, 3) {
+                                let many = if rng.chance(1, 8) { *rng.pick(&[254u64, 255, 256, 300]) } else { rng.range(1, 3) };
+                                for _ in 0..many {
                                     let k2 = gen_unknown_key(&mut rng, &known);
                                     if e.iter().any(|(k, _)| *k == k2) {
                                         continue;
                                     }
                                     let p2 = rng.usize(e.len() + 1);
-                                    let mut b2 = 60;
-                                    e.insert(p2, (k2, gen_unknown_value(&mut rng, 4, &mut b2)));
+                                    let mut b2 = if many > 3 { 4 } else { 60 };
+                                    let d2 = if many > 3 { 0 } else { 4 };
+                                    e.insert(p2, (k2, gen_unknown_value(&mut rng, d2, &mut b2)));
                                     extra += 1;
                                 }
                             }
